@@ -104,8 +104,18 @@ impl BocData {
         let di = day_index(d);
         let mut x = seed ^ (di as u64).wrapping_mul(0x9E37_79B9);
         let digit = 1 + splitmix(&mut x) % 9;
+        // A quarter of the calendars are "around par": noon values (CAD per USD) BELOW 1, as in
+        // 2007-08 and 2010-13, and daily values (USD per CAD) ABOVE 1 - which series an observation
+        // belongs to, not its size, decides whether it is inverted.
+        let par = seed % 4 == 0;
         if d.year() >= 2017 {
-            format!("0.7{:04}{}", di % 10000, digit)
+            if par {
+                format!("1.0{:04}{}", di % 10000, digit)
+            } else {
+                format!("0.7{:04}{}", di % 10000, digit)
+            }
+        } else if par {
+            format!("0.9{:04}{}", di % 10000, digit)
         } else {
             format!("1.{:04}{}", di % 10000, digit)
         }
